@@ -1567,6 +1567,14 @@ SoPlexBase<R>& SoPlexBase<R>::operator=(const SoPlexBase<R>& rhs)
       else
       {
          assert(intParam(SoPlexBase<R>::SYNCMODE) != SYNCMODE_ONLYREAL);
+
+         // the rational LP this object held so far is replaced: release it
+         if(_rationalLP != nullptr)
+         {
+            _rationalLP->~SPxLPRational();
+            spx_free(_rationalLP);
+         }
+
          _rationalLP = nullptr;
          spx_alloc(_rationalLP);
          _rationalLP = new(_rationalLP) SPxLPRational(*rhs._rationalLP);
